@@ -50,6 +50,11 @@ def run_like(rng):
         others = [n for n in nodes if n not in anc and n != t]
         if others:
             clo.mark_cancelled(tasks, clo.py_doomed(adj, tasks, rng.choice(others)))
+    ch = dict((a, b) for a, b in tg.canon_adj(adj))
+    if rng.random() < 0.3 and len(ch[t]) >= 2:
+        # a child of the conditional was cancelled (with everything it dooms) before the conditional completed:
+        # its probability is 0, the remaining weights add up to less than 1
+        clo.mark_cancelled(tasks, clo.py_doomed(adj, tasks, rng.choice(ch[t])))
     return adj, tasks, t
 
 
@@ -115,13 +120,14 @@ def run(ctx):
             tk = {int(k): v for k, v in tk.items()}
             triples.append((adj, tk, ["notify", t, 5, draw]))
             probs = [tasks[c][4] for c in ch[t]]
-            if sum(probs) == tg.DEN and probs[draw] > 0 and clo.py_closed(adj, tasks):
+            if sum(probs) <= tg.DEN and probs[draw] > 0 and clo.py_closed(adj, tasks):
                 mon.append(len(triples) - 1)
     n_rand = 400 if quick else 5000
     triples += [tg.rand_case(rng, ["notify", "notify", "resolve", "ready", "flags"]) for _ in range(n_rand)]
     ctx.rules.append("S-conditional: notify_task_completion on structured conditional/join graphs (nested conditionals, branches "
                      "of unequal length, empty branches = direct edge to the join, extra parents) in run-like states (ancestors "
-                     "COMPLETED, some tasks released or scheduled ahead, earlier cancellations) with EVERY possible draw, plus "
+                     "COMPLETED, some tasks released or scheduled ahead, earlier cancellations incl. a child of the conditional "
+                     "cancelled before it completed: weights adding up to less than 1) with EVERY possible draw, plus "
                      "random (DAG x state x operation) cases incl. resolve_conditional under the 5 policies, is_ready_to_run, "
                      "is_complete/is_cancelled; distinct = distinct (mapping, tasks, operation); non-trivial = >= 3 tasks and an edge")
     ctx.cov["distinct_nontrivial"] += tg.count_nontrivial(triples)
